@@ -3,6 +3,7 @@
    equals the textbook definitions.  Statements only, each closed by `exact`. *)
 From Coq Require Import ZArith QArith List Bool.
 Require Import SkV.Lib.Base SkV.Lib.ZRange SkV.C11.Model SkV.C11.Proofs SkV.C11.Gen SkV.C11.Bridge.
+Require Import SkV.C11.OptsModel SkV.C11.GenOpts SkV.C11.OptsBridge.
 Import ListNotations.
 Open Scope Z_scope.
 
@@ -357,6 +358,31 @@ Proof.
   rewrite H4. apply map_ext. intro r. rewrite bridge_poly_pred_time_fit. reflexivity.
 Qed.
 Print Assumptions C11_code_poly_is_lsq_partial.
+
+(* "... fitted with the same options": the option-forwarding tables of the statsmodels adapters,
+   regenerated from ets.py / exp_smoothing.py / theta.py on this run (C11/GenOpts.v).  Every
+   constructor option of AutoETS that is not an option of the model search reaches the ETSModel
+   constructor or its fit call under the matching statsmodels keyword (sp -> seasonal_periods) with
+   the value __init__ stored, nothing else is passed and no keyword twice - for the user-specified
+   model; the candidates of the automatic search get the searched components (error, trend,
+   damped_trend, seasonal) from their ranges and everything else exactly like the user-specified
+   model; the same for ExponentialSmoothing (whose _fit_forecaster ThetaForecaster inherits). *)
+Theorem C11_code_adapters_forward_every_option :
+  (gen_ets_not_stored = [] /\
+   forwarding_complete gen_ets_params ets_control gen_ets_ctor_fixed gen_ets_fit_fixed = true /\
+   only_options gen_ets_params (gen_ets_ctor_fixed ++ gen_ets_fit_fixed) = true) /\
+  (same_but_searched gen_ets_ctor_fixed gen_ets_ctor_auto = true /\
+   gen_ets_fit_auto = gen_ets_fit_fixed) /\
+  (gen_es_not_stored = [] /\
+   forwarding_complete gen_es_params [] gen_es_ctor gen_es_fit = true /\
+   only_options gen_es_params (gen_es_ctor ++ gen_es_fit) = true) /\
+  (gen_theta_params = theta_params /\ gen_theta_super = theta_super).
+Proof.
+  exact (conj (conj (proj2 bridge_ets_params) code_ets_fixed_forwards_every_option)
+        (conj code_ets_auto_forwards_every_option
+        (conj (conj (proj2 bridge_es_params) code_es_forwards_every_option) bridge_theta))).
+Qed.
+Print Assumptions C11_code_adapters_forward_every_option.
 
 (* the hypotheses are satisfiable by a non-trivial instance: sp = 3, window of 5 (not a multiple of
    3), a missing value, horizons beyond two seasons; and a quadratic fit exists *)
